@@ -397,6 +397,12 @@ def make_robot(layout, uid):
     for g in layout["feedbacks"]:
         if g["o"] == "robot":
             add_getter(base_ns, "robot", g["key"], uid, g.get("ty", "int"), g.get("sann", False))
+    if layout.get("onexc"):
+        # the team overrides the public onException(forceReport=False) hook (to count faults, light an LED, ...)
+        def onException(self, forceReport=False):
+            Rec.nerr = getattr(Rec, "nerr", 0) + 1
+            return MagicRobot.onException(self, forceReport=forceReport)
+        base_ns["onException"] = onException
     Base = type("Robot%d_Base" % uid, (MagicRobot,), base_ns)
     return type("Robot%d" % uid, (Base,), {"__annotations__": {c: classes[c] for c in comps[nbase:]}})
 
@@ -634,7 +640,7 @@ FB_TYPES = ["int", "int", "int", "none", "float", "bool", "str", "struct", "int[
 
 
 def gen_layout(rng, uid):
-    n = rng.choice([1, 2, 2, 3])
+    n = rng.choice([1, 2, 2, 3, 2, 3, 1, 2, 2, 3, 0])       # (a robot without components is a robot too)
     comps = ["c%d_%d" % (i, uid) for i in range(n)]
     has, resets, plain, inherit, fbs = {}, {}, {}, {}, []
     redeclare, shadow, initassign = {}, {}, {}
@@ -706,7 +712,7 @@ def gen_layout(rng, uid):
             "period": rng.choice([20000, 20000, 5000, 15625]),
             "inherit": inherit, "redeclare": redeclare, "shadow": shadow, "sm": sm, "sameclass": sameclass,
             "initassign": initassign, "derive": derive, "derive_redecl": derive_redecl,
-            "rp": rng.random() < 0.7, "eri": rng.choice([0.5, 0.5, 0, 0.001, 3]),
+            "rp": rng.random() < 0.7, "onexc": rng.random() < 0.3, "eri": rng.choice([0.5, 0.5, 0, 0.001, 3]),
             "sharedmarker": {c: rng.random() < 0.3 for c in comps},
             "hookform": {c: {k: rng.choice(["method", "method", "static", "class", "attr"])
                              for k in ("setup", "on_enable", "on_disable")}
